@@ -93,6 +93,16 @@ func (e *Exec) tagOf(v Value) string {
 }
 
 func (e *Exec) input(name string, s Sort, lo, hi *big.Int) *Term {
+	// a harness spec may pin an input to split one exploration over several workers
+	if pv, ok := e.cfg["pin."+name]; ok {
+		switch s {
+		case SBool:
+			return e.tf.Bool(pv == "true")
+		case SInt:
+			n, _ := new(big.Int).SetString(pv, 10)
+			return e.tf.IntB(n)
+		}
+	}
 	t := e.tf.Var(name, s, lo, hi)
 	if !e.inputSeen[name] {
 		e.inputSeen[name] = true
